@@ -17,6 +17,7 @@ package edns
 import (
 	"context"
 	"encoding/binary"
+	"encoding/hex"
 	"encoding/json"
 	"fmt"
 	"math/big"
@@ -31,6 +32,7 @@ import (
 
 	"github.com/miekg/dns"
 	"github.com/semihalev/sdns/config"
+	"github.com/semihalev/sdns/internal/dnsutil"
 	"github.com/semihalev/sdns/internal/ecs"
 	"github.com/semihalev/sdns/middleware"
 )
@@ -547,12 +549,13 @@ func vC19SnapECS(extra []dns.RR) (all []*dns.EDNS0_SUBNET, leftovers bool, nopt 
 	return
 }
 
-
 // a transport with an arbitrary remote address
 type vC19Writer struct {
 	proto  string
 	remote net.IP
 	msg    *dns.Msg
+	raw    []byte // the octets of a reply that arrived packed (the byte path)
+	bad    string // why they do not unpack, if they do not
 }
 
 func (w *vC19Writer) LocalAddr() net.Addr {
@@ -569,9 +572,12 @@ func (w *vC19Writer) RemoteAddr() net.Addr {
 }
 func (w *vC19Writer) WriteMsg(m *dns.Msg) error { w.msg = m; return nil }
 func (w *vC19Writer) Write(b []byte) (int, error) {
+	// like a socket: the octets are gone whatever they are; whether they are a message is judged afterwards
+	w.raw = append([]byte(nil), b...)
 	m := new(dns.Msg)
 	if err := m.Unpack(b); err != nil {
-		return 0, err
+		w.msg, w.bad = nil, err.Error()
+		return len(b), nil
 	}
 	w.msg = m
 	return len(b), nil
@@ -697,6 +703,15 @@ func vC19WireQuery(r *rand.Rand, b vC19BuildArgs) ([]byte, bool) {
 	}
 	binary.BigEndian.PutUint16(raw[10:], uint16(nopt))
 	return raw, hasECS
+}
+
+// a Coq list of octets
+func vC19Octets(b []byte) string {
+	parts := make([]string, len(b))
+	for i, x := range b {
+		parts[i] = strconv.Itoa(int(x))
+	}
+	return "([" + strings.Join(parts, ";") + "]%N)"
 }
 
 func vC19Counts(m *dns.Msg) (string, bool) {
@@ -888,6 +903,7 @@ func TestVerifC19Edns(t *testing.T) {
 		// facts the layer composes its reply OPT from, read off the query BEFORE the handler runs: on the
 		// message-born path SetEdns0 empties the selected OPT of this very message
 		hasCookie, hasNSID, hasKA := false, false, false
+		clientDO := reqOPT != nil && reqOPT.Do()
 		if reqOPT != nil {
 			for _, o := range reqOPT.Option {
 				switch x := o.(type) {
@@ -911,6 +927,7 @@ func TestVerifC19Edns(t *testing.T) {
 		var respDesc []string
 		big := r.Intn(6) == 0
 		tryBytes, bytesEDE, wroteBytes := r.Intn(3) == 0, r.Intn(2) == 0, false
+		bodyLen := 0
 		next := middleware.HandlerFunc(func(ctx context.Context, ch *middleware.Chain) {
 			called = true
 			marker = middleware.HasClientECS(ctx)
@@ -973,6 +990,7 @@ func TestVerifC19Edns(t *testing.T) {
 							info := middleware.WireInfo{Rcode: dns.RcodeSuccess, HasEDE: bytesEDE, EDECode: dns.ExtendedErrorCodeStaleAnswer, EDEText: "verif"}
 							if err := ww.WriteWire(buf, info); err == nil {
 								wroteBytes = true
+								bodyLen = len(body)
 								ch.Cancel()
 								return
 							}
@@ -1019,6 +1037,10 @@ func TestVerifC19Edns(t *testing.T) {
 			tr.emit(map[string]any{"k": k, "coq": fmt.Sprintf("CaseEdnsReq %s %s %s %s (Some %s)", b.coq(), remoteCoq, extraIn, vC19Bool(marker), seenCoq),
 				"go_fail": goFail, "nontrivial": anyECS,
 				"desc": map[string]any{"ecs_cfg": fmt.Sprintf("%+v", b), "remote": remote.String(), "path": path, "query_extra": qdesc, "upstream_extra": sdesc, "marker": marker}})
+			if w.msg == nil && wroteBytes && w.raw != nil {
+				tr.emit(map[string]any{"k": "edns-reply-bytes-malformed", "go_fail": "the byte-path reply is not a well-formed message: " + w.bad, "nontrivial": true,
+					"desc": map[string]any{"proto": proto, "path": path, "body_len": bodyLen, "reply": hex.EncodeToString(w.raw)}})
+			}
 			if w.msg != nil && wroteBytes {
 				var codes []string
 				nOPT := 0
@@ -1049,6 +1071,43 @@ func TestVerifC19Edns(t *testing.T) {
 					vC19Bool(hasNSID && cfg.NSID != ""), vC19Bool(hasKA && proto == "tcp"), vC19Bool(bytesEDE), obs),
 					"go_fail": goFail2, "nontrivial": fw || !noedns,
 					"desc": map[string]any{"proto": proto, "path": path, "nsid_configured": cfg.NSID != "", "forwarded_ecs_on_request_opt": fw, "reply_extra": rdesc}})
+				if !noedns && w.raw != nil && bodyLen >= 12 && len(w.raw) >= bodyLen {
+					// byte for byte: what the layer appended to the packed body, against the model composed
+					// from the translated internal/wire builders.  The server cookie is a digest: the
+					// observed one is handed to the model as a fact (its place, length and framing are compared)
+					appended := w.raw[bodyLen:]
+					cookieFact, nsidFact, edeFact := "None", "None", "None"
+					goFail3 := ""
+					if hasCookie {
+						var got []byte
+						for _, rr := range w.msg.Extra {
+							if o, ok := rr.(*dns.OPT); ok {
+								for _, x := range o.Option {
+									if ck, ok := x.(*dns.EDNS0_COOKIE); ok {
+										got, _ = hex.DecodeString(ck.Cookie)
+									}
+								}
+							}
+						}
+						cookieFact = "(Some " + vC19Octets(got) + ")"
+						if len(got) != 40 { // 8 octets of the client's cookie + a SHA-256 digest
+							goFail3 = fmt.Sprintf("server cookie of %d octets on the byte path", len(got))
+						}
+					}
+					if hasNSID && cfg.NSID != "" {
+						nsidFact = "(Some " + vC19Octets([]byte(cfg.NSID)) + ")"
+					}
+					if bytesEDE {
+						edeFact = fmt.Sprintf("(Some (%d%%N, %s))", dns.ExtendedErrorCodeStaleAnswer, vC19Octets([]byte("verif")))
+					}
+					if binary.BigEndian.Uint16(w.raw[10:12]) != 1 {
+						goFail3 = fmt.Sprintf("ARCOUNT %d after appending one OPT to a body without additional records", binary.BigEndian.Uint16(w.raw[10:12]))
+					}
+					tr.emit(map[string]any{"k": "edns-reply-bytes-octets", "coq": fmt.Sprintf("CaseEdnsWireBytes %d (mk_wire_facts %d %s %s %s %s %s) %s",
+						bodyLen, dnsutil.DefaultMsgSize, vC19Bool(clientDO), cookieFact, nsidFact, vC19Bool(hasKA && proto == "tcp"), edeFact, vC19Octets(appended)),
+						"go_fail": goFail3, "nontrivial": true,
+						"desc": map[string]any{"proto": proto, "path": path, "body_len": bodyLen, "appended": hex.EncodeToString(appended), "reply_extra": rdesc}})
+				}
 			} else if w.msg != nil {
 				counts, leaked := vC19Counts(w.msg)
 				trunc := w.msg.Truncated
